@@ -378,7 +378,10 @@ def fusion_pairs(ctx: common.Ctx, n_jobs: int, procs: int = 14):
     with mp.get_context('fork').Pool(min(procs, max(1, n_jobs))) as pool:
         res = pool.map(cv_backbone.fusion_pair_worker, jobs)
     n = 0
+    st = ctx.coverage.setdefault('fusion_pair_stats', {})
     for r in res:
+        for k, v in r.get('stats', {}).items():
+            st[k] = st.get(k, 0) + v
         if 'runs' not in r:
             continue
         n += 1
@@ -393,7 +396,7 @@ def fusion_pairs(ctx: common.Ctx, n_jobs: int, procs: int = 14):
         if lost:
             ctx.add_violation(
                 f'{len(lost)} peptide(s) reported for a fusion record alone are missing when a second '
-                f'fusion record with the same donor breakpoint (another acceptor) is supplied as well, '
+                f'fusion record with the same donor breakpoint (another acceptor, or another position of the same acceptor) is supplied as well, '
                 f'e.g. {sorted(lost)[:3]}', dict(r['desc'], kind='fusion-same-breakpoint', lost=sorted(lost)[:20]))
     shutil.rmtree(gen_ref.WORK, ignore_errors=True)
     return n
